@@ -138,4 +138,71 @@ theorem C14_pooled_mean (a b : List Pt) (ha : a ≠ []) (hb : b ≠ []) (hwa : 0
 /-! Non-vacuity: A = {1, 3} (weights 1, 1), B = {6} (weight 2): means 2 and 6, pooled mean 4. -/
 example : ((rawStats [(1, 1), (3, 1)]).add (rawStats [(6, 2)])).mean = some 4 := by decide +kernel
 
+theorem sum_eq_zero_iff_of_nonneg {α} (l : List α) (f : α → Rat) (h : ∀ x ∈ l, 0 ≤ f x) :
+    (l.map f).sum = 0 ↔ ∀ x ∈ l, f x = 0 := by
+  induction l with
+  | nil => simp
+  | cons x xs ih =>
+    have hx := h x (List.mem_cons_self ..)
+    have hxs := fun y hy => h y (List.mem_cons_of_mem _ hy)
+    have hs := sum_nonneg_of_forall xs f hxs
+    simp only [List.map_cons, List.sum_cons, List.mem_cons, forall_eq_or_imp]
+    rw [← ih hxs]
+    constructor
+    · intro e; constructor <;> linarith
+    · rintro ⟨a, b⟩; linarith
+
+/-- **The variance is zero exactly when all the weight sits on one value** (non-negative weights):
+    every entry has weight 0 or the value `mean()`. -/
+theorem C14_variance_zero_iff (d : List Pt) (hne : d ≠ []) (hw : 0 < wsum d) (hp : ∀ p ∈ d, 0 ≤ p.2) :
+    (rawStats d).variance = some 0 ↔ ∀ p ∈ d, p.2 = 0 ∨ p.1 = sumWV d / wsum d := by
+  rw [(C14_moments d hne hw).2]
+  have hw' := ne_of_gt hw
+  rw [Option.some.injEq, div_eq_zero_iff, or_iff_left hw',
+    sum_eq_zero_iff_of_nonneg d _ fun p hpm => mul_nonneg (hp p hpm) (sq_nonneg _)]
+  refine forall₂_congr fun p _ => ?_
+  rw [mul_eq_zero, sq_eq_zero_iff, sub_eq_zero]
+
+example : (rawStats [(2, 1), (2, 3), (7, 0)]).variance = some 0 := by decide +kernel
+
+
+theorem sumWV2_append (a b : List Pt) : sumWV2 (a ++ b) = sumWV2 a + sumWV2 b := by
+  simp [sumWV2, List.map_append, List.sum_append]
+
+/-- variance in the "sum of squares" form the implementation computes -/
+theorem C14_variance_raw (d : List Pt) (hne : d ≠ []) (hw : 0 < wsum d) :
+    (rawStats d).variance = some ((sumWV2 d - sumWV d * sumWV d / wsum d) / wsum d) := by
+  obtain ⟨h1, h2, h3, _, _⟩ := C14_sums d hne
+  have hv : (rawStats d).valid = true := by cases d <;> simp [rawStats, statsOf, Stats.empty]
+  simp only [Stats.variance, hv, h1, h2, h3, hw, decide_true, Bool.and_self, if_true]
+
+/-- **Law of total variance for a sum of histograms**: the variance reported by `h(A) + h(B)` is the
+    weight-average of the two variances plus the weight-average of the squared distances of the two
+    means from the pooled mean. -/
+theorem C14_pooled_variance (a b : List Pt) (ha : a ≠ []) (hb : b ≠ []) (hwa : 0 < wsum a) (hwb : 0 < wsum b) :
+    ∃ μa μb μ va vb v, (rawStats a).mean = some μa ∧ (rawStats b).mean = some μb ∧
+      ((rawStats a).add (rawStats b)).mean = some μ ∧
+      (rawStats a).variance = some va ∧ (rawStats b).variance = some vb ∧
+      ((rawStats a).add (rawStats b)).variance = some v ∧
+      v = (wsum a * (va + (μa - μ) ^ 2) + wsum b * (vb + (μb - μ) ^ 2)) / (wsum a + wsum b) := by
+  have hab : a ++ b ≠ [] := by simp [ha]
+  have hw : 0 < wsum (a ++ b) := by rw [wsum_append']; exact add_pos hwa hwb
+  have m1 := (C14_moments a ha hwa).1
+  have m2 := (C14_moments b hb hwb).1
+  have m3 := (C14_moments (a ++ b) hab hw).1
+  have v1 := C14_variance_raw a ha hwa
+  have v2 := C14_variance_raw b hb hwb
+  have v3 := C14_variance_raw (a ++ b) hab hw
+  rw [← C14_hom] at m3 v3
+  rw [sumWV_append, wsum_append'] at m3 v3
+  rw [sumWV2_append] at v3
+  refine ⟨_, _, _, _, _, _, m1, m2, m3, v1, v2, v3, ?_⟩
+  have hwa' := ne_of_gt hwa
+  have hwb' := ne_of_gt hwb
+  have hsum := ne_of_gt (add_pos hwa hwb)
+  field_simp
+  ring
+
+example : ((rawStats [(1, 1), (3, 1)]).add (rawStats [(6, 2)])).variance = some (9 / 2) := by decide +kernel
+
 end Physt
